@@ -26,6 +26,10 @@ def bounds(tier):
     return {'depth': DEPTH[tier], 'roles': list(DEPTH[tier]), 'links': ['tcp', 'msg', 'quic']}
 
 
+# peer elements that arrive as two fragments (F + tail): 'NCF' = complete-flagged element, 'NF' = plain element
+FRAG_SYMS = ('NCF',)
+
+
 # ---- reference automaton (pure function of the symbol sequence) ------------------------------------------------------
 def conn_events(role, flavour):
     """Connection-loss events the transport actually reports to the engine. The aiohttp message transports do not
@@ -68,9 +72,12 @@ class Ref:
             if not self.peer_term:
                 if self.role == 'rr':
                     out += [('p', 'NC'), ('p', 'C'), ('p', 'E')]
+                    if 'NCF' in FRAG_SYMS:
+                        out.append(('p', 'NCF'))
                 else:
                     if self.peer_next < self.credit_to_peer:
                         out += [('p', 'N'), ('p', 'NC')]
+                        out += [('p', f) for f in FRAG_SYMS]
                     out += [('p', 'C'), ('p', 'E')]
             elif ch:
                 out += [('p', 'E')] if False else []
@@ -95,9 +102,9 @@ class Ref:
         k, a = sym
         ch = self.role in ('chan_req', 'chan_resp')
         if k == 'p':
-            if a in ('N', 'NC'):
+            if a in ('N', 'NC', 'NF', 'NCF'):
                 self.peer_next += 1
-            if a in ('NC', 'C'):
+            if a in ('NC', 'C', 'NCF'):
                 self.peer_term = True
             if a == 'E':
                 self.peer_term = self.peer_dead = True
@@ -181,6 +188,10 @@ class Driver:
         if k == 'p':
             self.n += 1
             body = b'e%d' % self.n
+            if a in ('NF', 'NCF'):
+                s.peer(R.enc_payload(sid, body + b'-part1', b'm', follows=True), mode)
+                s.peer(R.enc_payload(sid, b'-part2', complete=(a == 'NCF')), mode)
+                return
             raw = {'N': lambda: R.enc_payload(sid, body), 'NC': lambda: R.enc_payload(sid, body, complete=True),
                    'C': lambda: R.enc_payload(sid, b'', complete=True, next=False),
                    'E': lambda: R.enc_error(sid, 0x201, b'boom'), 'RN': lambda: R.enc_request_n(sid, 1),
@@ -318,16 +329,20 @@ def explore(role, flavour, depth, first, part):
 
 
 def make_units(tier):
+    global FRAG_SYMS
+    FRAG_SYMS = ('NCF',) if tier == 'quick' else ('NCF', 'NF')
     units = []
     for role, depth in DEPTH[tier].items():
         for flavour in ('tcp', 'msg', 'quic'):
-            units.append({'role': role, 'flavour': flavour, 'depth': depth, 'first': None, 'root_only': True})
+            units.append({'role': role, 'flavour': flavour, 'depth': depth, 'first': None, 'root_only': True, 'frag': list(FRAG_SYMS)})
             for sym in Ref(role, flavour).enabled():
-                units.append({'role': role, 'flavour': flavour, 'depth': depth, 'first': list(sym)})
+                units.append({'role': role, 'flavour': flavour, 'depth': depth, 'first': list(sym), 'frag': list(FRAG_SYMS)})
     return units
 
 
 def run_unit(unit, part):
+    global FRAG_SYMS
+    FRAG_SYMS = tuple(unit.get('frag', ('NCF',)))
     if unit.get('root_only'):
         v, sig = run_seq(unit['role'], unit['flavour'], [])
         part.evaluations += 1
